@@ -100,8 +100,6 @@ QMU == {1, 2, 16, 18}
 QMB == {1, 3, 14}
 QMAU == {1, 9, 11}
 QMAB == {1, 4, 12}
-QAU4 == {1, 3, 5, 7, 9, 11}
-QAB4 == {1, 2, 4, 7, 10, 12}
 TU  == 1..NU
 TB  == 1..NB
 TAU == 1..Len(ArgsU)
